@@ -44,6 +44,10 @@ func PathFor(in interface{}) (string, error) {
 		return join(s.ToPath()), nil
 	}
 
+	if rv := reflect.ValueOf(in); rv.Kind() == reflect.Ptr && rv.IsNil() {
+		return "", fmt.Errorf("can not calculate path to nil %T", in)
+	}
+
 	ni, err := name.Interface(in)
 	if err != nil {
 		return "", err
